@@ -22,6 +22,7 @@ func init() {
 }
 
 func runC13(c *Ctx, r *Report) {
+	defer round8(c, r, "C13")
 	l := c.L
 	// ---------------- R1 ----------------
 	r.rule("C13-R1", "C (lockset + belief)", "P1",
@@ -141,6 +142,7 @@ func runC13(c *Ctx, r *Report) {
 	c08r19(c, r) // the published result is the filter of the snapshot it is published for, also right after a reload
 	c04r14(c, r) // a search over a --tail snapshot never returns the unused slot of the partial first chunk
 	c08r13(c, r) // a result published for a snapshot is computed for that snapshot's revision
+	c08r5(c, r)  // ... and from the field split of that revision, not from tokens an earlier search left in the items
 	c01r3(c, r)  // a cached list narrower than the query's true result is a wrong result of the search
 	c13r8(c, r)
 	c06r6(c, r) // items never change after they have been read
